@@ -19,7 +19,7 @@ LEVEL = 'exploration'
 RULE = ('case = key shape (generated from the seed) or a concatenation of shapes; one evaluation per export/import pass compared; non-trivial = shape with at '
         'least two components carrying signatures, or a non-exportable signature, or equal creation times; distinct = distinct shape descriptors')
 ASSUMPTIONS = ['vf.ref.grammar transferable-key parser (11.1/11.2)', 'signature validity per vf.ref.sig']
-MIN_COUNTERS = {'quick': {'shapes': 100, 'passes_compared': 500, 'signatures_reverified': 1500, 'nonexportable_seen': 20, 'concatenations': 20, 'copies': 120, 'foreign_encoded_keys': 15, 'generated_keys': 10, 'mixed_concatenations': 6, 'held_public_exports': 30},
+MIN_COUNTERS = {'quick': {'shapes': 100, 'passes_compared': 500, 'signatures_reverified': 1500, 'nonexportable_seen': 20, 'concatenations': 20, 'copies': 120, 'foreign_encoded_keys': 15, 'generated_keys': 10, 'mixed_concatenations': 6, 'held_public_exports': 30, 'reprotected_exports': 20},
                 'thorough': {'shapes': 1500}}
 BUDGET = {'quick': (600, 1500), 'thorough': (1800, 3600)}
 TECHNIQUE = 'runtime monitoring: differential reference-model monitor (independent transferable-key parser + verifier) over generated key shapes'
@@ -48,6 +48,9 @@ def cases(tier, seed):
     # the public half is taken early (and kept by the caller) while the key keeps growing
     for i in range(16 if tier == 'quick' else 400):
         cs.append({'t': 'heldpub', 'i': i, 'seed': seed, 'keep': ['strong', 'strong', 'dropped', 'list'][i % 4]})
+    # keys whose protection is changed (other passphrase, cipher of another block size, other hash) before they are exported
+    for i in range(12 if tier == 'quick' else 200):
+        cs.append({'t': 'reprotected', 'i': i, 'seed': seed})
     if gpgx.available():
         cs.append({'t': 'gpg', 'seed': seed, 'n': 4 if tier == 'quick' else 20})
     return cs
@@ -90,6 +93,8 @@ def run_case(ctx, d):
             _foreignenc(ctx, d, pgpy)
         elif d['t'] == 'heldpub':
             _heldpub(ctx, d, pgpy)
+        elif d['t'] == 'reprotected':
+            _reprotected(ctx, d, pgpy)
         else:
             _gpg(ctx, d, pgpy)
 
@@ -272,6 +277,55 @@ def _concat(ctx, d, pgpy):
             if dd:
                 ctx.fail('concatenated-key-structure-differs', {'n': n, 'form': form, 'differs': dd})
     ctx.nontrivial({'concat': d['i'], 'n': n})
+
+
+def _reprotected(ctx, d, pgpy):
+    """protect, then change the protection once or twice (unlock + protect with another cipher / hash / passphrase), then export the private key
+    binary and armored and import it: same structure, every signature verifies, the last passphrase opens it"""
+    from pgpy.constants import SymmetricKeyAlgorithm as S, HashAlgorithm as H
+    r = ctx.rng('reprotected', d['i'], d['seed'])
+    shape = keyshape.random_shape(r, rich=False)
+    k, info = keyshape.build(shape)
+    seq = [(S.AES256, H.SHA256), (S.CAST5, H.SHA1), (S.TripleDES, H.SHA512), (S.AES128, H.SHA1), (S.Blowfish, H.SHA256), (S.Camellia192, H.SHA384), (S.AES192, H.SHA224)]
+    steps = [seq[(d['i'] + j * 3) % len(seq)] for j in range(2 + d['i'] % 2)]
+    pw = None
+    want = keyshape.obj_tree(k.pubkey)
+    for j, (c_, h_) in enumerate(steps):
+        npw = 'reprotect %d' % j
+        if pw is None:
+            k.protect(npw, c_, h_)
+        else:
+            with k.unlock(pw):
+                k.protect(npw, c_, h_)
+        pw = npw
+        ctx.count('reprotected_exports')
+        ctx.count('passes_compared')
+        ctx.count('evaluations')
+        where = {'shape': shape, 'protections': [(str(a), str(b)) for a, b in steps[:j + 1]]}
+        for form, data in (('binary', bytes(k)), ('armor', str(k))):
+            try:
+                bt = keyshape.blob_tree(bytes(k))
+                k2 = pgpy.PGPKey.from_blob(data)[0]
+            except Exception as e:
+                ctx.fail('own-export-not-importable', dict(where, form=form, err=repr(e)[:160]))
+                continue
+            if len(bt) != 1:
+                ctx.fail('export-splits-into-several-keys', dict(where, n=len(bt)))
+                continue
+            dd = keyshape.tree_diff(keyshape.obj_tree(k2.pubkey), want)
+            if dd or str(k2.fingerprint) != str(k.fingerprint):
+                ctx.fail('imported-structure-differs-from-export', dict(where, form=form, differs=dd))
+                continue
+            g2, b2, st2 = verified_sigs(pgpy, k2.pubkey)
+            if b2:
+                ctx.fail('signature-fails-after-import', dict(where, form=form, bad=len(b2)))
+            try:
+                with k2.unlock(pw):
+                    if not k2.is_unlocked:
+                        ctx.fail('reprotected-key-does-not-open-after-import', dict(where, form=form))
+            except Exception as e:
+                ctx.fail('reprotected-key-does-not-open-after-import', dict(where, form=form, err=repr(e)[:120]))
+    ctx.nontrivial({'protections': len(steps)})
 
 
 def _heldpub(ctx, d, pgpy):
